@@ -39,6 +39,9 @@ claimed = {
  "C07": ("table extraction and sibling cross-checking on typed syntax and SSA: operator→implementation dispatch tables (string-switch arms, operand order), per-cell kernel operator agreement (every expression combining a left-derived with a right-derived operand uses the function's own Go operator, orientation for non-commutative ones), sibling/duality comparison of the four ordering operators up to renaming, negation derivation of != and !~, not-set consultation, ACL scan rules (no early verdict, negation under containment, family-dependent default mask, prefix-length comparison), rotate rules (no signed right shift, direction), branch selection dominance for if/else-if/else and switch/case/fallthrough",
          "Structural necessary conditions: each VCL operator reaches the function that implements it with operands in order; in each (left type, right type) cell the operands are combined with that operator; <,>,<=,>= agree cell by cell and are mirror images; != and !~ negate == and ~; ACL matching is order independent, honours negation only for containing entries and picks by prefix length; rotation is a bit rotation in the right direction; a block runs only under the truth of its own condition, one block per chain, first matching case wins. A one-token edit in any cell is caught for all operands of those types. Does not decide numeric results (saturation thresholds, rounding) or regex matching.",
          "trusts go/types + go/ssa; spec tables in c07.go transcribe the operator list of the property statement; library methods Compare/Equal/Add/Sub/math.Mod are treated as the operators they are", "DESIGN.md §4 C07"),
+ "C20": ("template context analysis: text/template constants extracted from typed syntax, parsed with text/template/parse, control structure unrolled into VCL skeleton paths with a lexical-context automaton (code / double-quoted / long string / comments) at every interpolation; helper functions classified from their SSA (constant-only, identifier sanitiser, quote-and-percent encoder, line-feed remover); field types resolved with go/types; field census; ACL marker shape; sibling mapping check of the two Fetcher implementations on SSA",
+         "Structural necessary conditions: every string-kinded resource field pasted into a string literal is percent-encoded for `\"` and `%`, into a comment loses its line feeds, never lands in a long string; names pasted as code are sanitised (or are named code-valued/identifier-restricted fields) and a backend is spelled the same where declared and where referenced; every field of dictionaries, ACL entries, backends and directors is rendered; `!` and `/mask` are printed exactly under their flags; both fetchers fill each field from the source field of the same name. Holds for all resource sets and values; does not decide the template engine or the parser's decoding.",
+         "trusts go/types, go/ssa and text/template/parse of the analysing toolchain; exemption tables (code-valued fields, identifier-restricted names) in c20.go with one reason each", "DESIGN.md §4 C20"),
  "C17": ("pairing/typestate rules on SSA: canonicaliser requirement on the assigned-key set (same callee in IsAssigned/Assign/Unassign, who-may-touch), must-follow path analysis pairing Header.Del with Unassign and Header.Set/Add with Assign on the same key (canonical access paths), case-insensitive comparison rule for loops over canonical header keys, separator agreement",
          "Structural necessary conditions of the header store laws: the set/not-set bookkeeping is keyed canonically like net/http; every VCL-visible delete un-assigns and every write assigns the same key on every path; wildcard matching compares canonical forms. Decides the keying/pairing shape for all histories and spellings; not the sub-field regular-expression algebra.",
          "trusts go/ssa; scope of hdr.pair is interpreter/variable (the VCL-visible write paths)", "DESIGN.md §4 C17"),
